@@ -21,6 +21,7 @@ def check(ctx):
     F = ctx.F
     obscure.check_target_table(ctx, 'C03.1')
     obscure.check_obscure_region(ctx, 'C03.2')
+    obscure.check_elide_primitive(ctx, 'C03.2')
     obscure.check_sinks(ctx, 'C03.2/elide', want=('elide',))
     obscure.check_rebuild(ctx, 'C03.4/rebuild', 'C03.4')
     # ---- C03.3 Elided carries one Digest; encoder emits exactly its untagged form
